@@ -69,6 +69,21 @@ func c10Trace(g *gen.FG, side string, r *fw.Rand) *c10Side {
 			}
 			p.Extra = append(p.Extra, occ)
 		}
+		// Facts of which a record usually has one only (record numbers, the sex):
+		// the two originals disagree about them, and both statements are facts
+		// the merged individual has to keep.
+		if r.Chance(1, 2) {
+			tag := []string{"RIN", "RFN", "AFN", "RESN", "REFN"}[r.Intn(5)]
+			m := fmt.Sprintf("fact-%s-%s", p.Tracer, strings.ToLower(tag))
+			s.facts[p.Tracer] = append(s.facts[p.Tracer], m)
+			p.Extra = append(p.Extra, &gen.Spec{Tag: tag, Value: m})
+		}
+		if side == "R" && r.Chance(1, 5) && (p.Sex == "M" || p.Sex == "F") {
+			p.Sex = map[string]string{"M": "F", "F": "M"}[p.Sex] // the copy was corrected (or mistyped)
+		}
+		if p.Sex != "" {
+			s.facts[p.Tracer] = append(s.facts[p.Tracer], "SEX="+p.Sex)
+		}
 		if p.Ev("DEAT") != nil {
 			switch r.Intn(4) {
 			case 0:
@@ -170,6 +185,9 @@ func c10EditedCopy(r *fw.Rand, g *gen.FG, renumber bool, drop bool) *gen.FG {
 	return c
 }
 
+// c10BigCase: scenario same-pointers, default configuration.
+const c10BigCase = 40
+
 func c10N(tier string) int {
 	if tier == "thorough" {
 		return 120000
@@ -240,6 +258,14 @@ func c10Index(text string) (*c10Out, error) {
 }
 
 func c10HasMarker(n gedcom.Node, m string) bool {
+	if strings.HasPrefix(m, "SEX=") {
+		for _, k := range n.Nodes() {
+			if k.Tag().Is(gedcom.TagSex) && k.Value() == m[4:] {
+				return true
+			}
+		}
+		return false
+	}
 	if n.Value() == m {
 		return true
 	}
@@ -398,6 +424,12 @@ func c10Run(c *fw.Ctx, i int) {
 	scen := c10Scenarios[i%len(c10Scenarios)]
 	c.Class("scenario", scen)
 	n := r.Range(1, 14)
+	// one document per run is large: more than 2,000 people who are all found
+	// again under their pointer (the pipeline's channels hold 1,000 items)
+	big := i == c10BigCase
+	if big {
+		n = 2100
+	}
 	base := gen.NewFG(r, gen.FGOpts{People: n, UniqueTokens: true, TokenBase: i * 97 % 30000, ExactDates: true, NoLiving: true, WithUIDs: false})
 	var right *gen.FG
 	switch scen {
@@ -470,9 +502,21 @@ func c10Run(c *fw.Ctx, i int) {
 	payload["configuration"] = conf
 	var merged *gedcom.Document
 	var err error
-	if pi := fw.Try(func() { merged, err = gedcom.MergeDocumentsAndIndividuals(ld, rd, gedcom.EqualityMergeFunction, opts) }); pi != nil {
+	pi, parked := fw.Guard(func() { merged, err = gedcom.MergeDocumentsAndIndividuals(ld, rd, gedcom.EqualityMergeFunction, opts) })
+	if pi != nil {
 		c.Violation("merge-panics:"+pi.Class, "MergeDocumentsAndIndividuals panicked: "+pi.Msg, payload)
 		return
+	}
+	if parked != "" {
+		if big {
+			payload = map[string]interface{}{"scenario": scen, "people": n, "note": "inputs are generated from the case index"}
+		}
+		c.Violation("merge-does-not-return:deadlock@"+fw.InnermostRepoFrame(parked), fmt.Sprintf("MergeDocumentsAndIndividuals of two documents with %d and %d people never returns: every goroutine of the library is parked\n%s", len(base.People), len(right.People), clip(parked, 2500)), payload)
+		return
+	}
+	if big {
+		c.Count("large-documents", 1)
+		payload = map[string]interface{}{"scenario": scen, "people": n, "note": "inputs are generated from the case index"}
 	}
 	if err != nil || merged == nil {
 		c.Violation("merge-failed", fmt.Sprintf("MergeDocumentsAndIndividuals returned %v", err), payload)
@@ -504,7 +548,7 @@ func c10Run(c *fw.Ctx, i int) {
 		}
 	}
 	// the query function, printed by the gedcom formatter (default options only)
-	if conf == "default" {
+	if conf == "default" && !big {
 		c.Count("query-path", 1)
 		ld2, _ := gedcom.NewDocumentFromString(L.text)
 		rd2, _ := gedcom.NewDocumentFromString(R.text)
@@ -532,7 +576,7 @@ func c10Run(c *fw.Ctx, i int) {
 				c.Violation("query-differs-from-library", fmt.Sprintf("the query result differs from the library result\nquery:\n%s\nlibrary:\n%s", clip(buf.String(), 600), clip(outText, 600)), payload)
 			}
 		}
-		if bin := os.Getenv("VERIF_GEDCOM_BIN"); bin != "" && (i/len(c10Scenarios))%10 == 0 {
+		if bin := os.Getenv("VERIF_GEDCOM_BIN"); bin != "" && (i/len(c10Scenarios))%10 == 0 && !big {
 			dir := os.Getenv("VERIF_SCRATCH")
 			if dir == "" {
 				dir = os.TempDir()
